@@ -209,6 +209,7 @@ pub struct Seen {
     pub gate_scenarios: u64,
     pub max_concurrent: u64,
     pub acceptors_built_from_clone: u64,
+    pub small_transport_buffers: u64,
 }
 
 async fn exchange(server: &mut BoxRw, client: &mut BoxRw, r: &mut Rng, seen: &mut Seen) -> Result<(), Fail> {
@@ -232,8 +233,17 @@ async fn exchange(server: &mut BoxRw, client: &mut BoxRw, r: &mut Rng, seen: &mu
             let mut got = vec![0u8; n];
             rd.read_exact(&mut got).await.map(|_| got)
         };
-        let (wr, got) = tokio::join!(write, read);
         let which = if dir == 0 { "client->server" } else { "server->client" };
+        // virtual time: the timeout fires only when both sides are idle for good
+        let (wr, got) = match tokio::time::timeout(Duration::from_secs(60), async { tokio::join!(write, read) }).await {
+            Ok(x) => x,
+            Err(_) => {
+                return Err(Fail {
+                    sig: "C18:payload:never-arrives".into(),
+                    desc: format!("{which}: {n} bytes were written and flushed (or are being written) but the reader is still waiting for them with both sides idle"),
+                })
+            }
+        };
         if let Err(e) = wr {
             return Err(Fail { sig: "C18:payload:write-error".into(), desc: format!("{which}: write of {n} bytes failed: {e}") });
         }
@@ -264,7 +274,14 @@ pub async fn accept_case(kind: Kind, client: Client, timeout: Duration, pki: Arc
         Client::CloseAfter(n) => Cut::CloseAfter(n),
         _ => Cut::None,
     };
-    let (c_end, s_end, log) = pipe::relayed(cut);
+    // complete clients exchange payloads afterwards: sometimes over a server-side transport with a small buffer, so
+    // that the server's writes see Pending from the transport in the middle of a record and the tail has to be
+    // pushed out by flush
+    let server_cap = if matches!(client, Client::CompleteRustls | Client::CompleteOpenSsl) { *Rng::new(seed ^ 0xCA9).pick(&[600usize, 3000, 256 * 1024]) } else { 256 * 1024 };
+    if server_cap < 256 * 1024 {
+        seen.small_transport_buffers += 1;
+    }
+    let (c_end, s_end, log) = pipe::relayed_cap(cut, server_cap);
     // Service contract: poll_ready before call
     let (w, _) = new_waker(0);
     if !matches!(svc.poll_ready(&mut Context::from_waker(&w)), Poll::Ready(Ok(()))) {
@@ -351,14 +368,19 @@ pub fn gate_case(kind: Kind, limit: usize, ops_seed: u64, pki: Arc<Pki>) -> Resu
         let sys = actix_rt::System::with_tokio_rt(|| tokio::runtime::Builder::new_current_thread().enable_all().start_paused(true).build().unwrap());
         sys.block_on(async move {
             let timeout = Duration::from_secs(5);
-            let svc = Svc::new(kind, &pki, timeout, ops_seed & 1 == 1).await;
+            // two acceptor services on this thread (two TLS listeners of one worker): the maximum is per thread, so they
+            // share one budget; every step addresses one of them at random
+            let svcs = [Svc::new(kind, &pki, timeout, ops_seed & 1 == 1).await, Svc::new(kind, &pki, timeout, ops_seed & 2 == 2).await];
+            let two = ops_seed % 3 != 0;
             let mut r = Rng::new(ops_seed);
             let mut inflight: Vec<tokio::task::JoinHandle<(Outcome, Option<BoxRw>)>> = Vec::new();
             let mut parked: Option<Arc<vh_core::exec::WakeRec>> = None;
             let (mut ready, mut pending, mut wakes, mut maxc) = (0u64, 0u64, 0u64, 0u64);
             let mut keep_alive = Vec::new();
             for step in 0..40u64 {
-                let what = format!("{kind:?} acceptor, limit {limit}, step {step}, {} handshakes in progress", inflight.len());
+                let which = if two { r.usize(2) } else { 0 };
+                let svc = &svcs[which];
+                let what = format!("{kind:?} acceptor service #{which} of {}, limit {limit}, step {step}, {} handshakes in progress on this thread", if two { 2 } else { 1 }, inflight.len());
                 if inflight.len() < 5 && r.chance(2, 3) {
                     // poll_ready, then call if ready
                     let (w, rec) = new_waker(step);
@@ -489,7 +511,7 @@ pub fn run(args: &Args, rep: &mut Report) {
                     clients.push(Client::StallAfter(*p));
                     clients.push(Client::CloseAfter(*p));
                 }
-                let reps = if thorough { 12 } else { 2 };
+                let reps = if thorough { 400 } else { 8 };
                 for rep_no in 0..reps {
                     for t in &timeouts {
                         for c in &clients {
@@ -530,7 +552,7 @@ pub fn run(args: &Args, rep: &mut Report) {
     }
 
     // ---- concurrency gate: a fresh thread per (kind, limit, op sequence)
-    let n_gate = if thorough { 60 } else { 8 };
+    let n_gate = if thorough { 1500 } else { 16 };
     let mut r = Rng::new(args.seed ^ 0xC18).fork(args.shard);
     let mut i = 0u64;
     for kind in [Kind::Rustls, Kind::OpenSsl] {
@@ -573,5 +595,6 @@ pub fn run(args: &Args, rep: &mut Report) {
     rep.add("obs_gate_wakeups_checked", seen.gate_wakes);
     rep.add("obs_gate_scenarios", seen.gate_scenarios);
     rep.add("obs_acceptors_built_from_clone", seen.acceptors_built_from_clone);
+    rep.add("obs_exchanges_over_small_server_transport", seen.small_transport_buffers);
     rep.max("max_concurrent_handshakes", seen.max_concurrent);
 }
